@@ -623,5 +623,14 @@ func props() []rp.Prop {
 	}
 }
 
-func TestC06(t *testing.T)    { rp.RunAll(t, props()...) }
+func TestC06(t *testing.T) {
+	var w *idleWatch
+	if !ev.Replaying() && ev.Shard() == 1%ev.Shards() {
+		w = startIdleWatch()
+	}
+	rp.RunAll(t, props()...)
+	if w != nil {
+		finishIdleWatch(t, w)
+	}
+}
 func TestReplay(t *testing.T) { rp.ReplayAll(t, props()...) }
